@@ -281,6 +281,102 @@ theorem dtls_handshake_roundtrip (b : DtlsBody β) (hw : WFDtlsBody b) (mseq : N
     rename_i c; cases c <;> simp [dtlsTypeAndBody]
   rw [dtls_not_fragment _ _ mseq _ r ht hlen hm hlen (by omega), hb]; rfl
 
+/-! ### a handshake record holding several messages (fragments and whole messages mixed) decodes to exactly those messages -/
+
+/-- a DTLS handshake message as it appears on the wire: an opaque fragment (any type, any header values satisfying the
+    fragment rule), or a whole message of a supported kind -/
+inductive DtlsWire (β : Type) where
+  | frag (t len mseq off : Nat) (data : List β)
+  | whole (b : DtlsBody β) (mseq : Nat)
+
+def DtlsWire.WF : DtlsWire β → Prop
+  | .frag t len mseq off data => t < 256 ∧ len < 2 ^ 24 ∧ mseq < 65536 ∧ off < 2 ^ 24 ∧ data.length < 2 ^ 24 ∧ (off > 0 ∨ data.length < len)
+  | .whole b mseq => WFDtlsBody b ∧ mseq < 65536 ∧ (dtlsTypeAndBody b).2.length < 2 ^ 24
+
+def DtlsWire.enc : DtlsWire β → List β
+  | .frag t len mseq off data => encDtlsHsHeader t len mseq off data.length ++ data
+  | .whole b mseq => encDtlsHsHeader (dtlsTypeAndBody b).1 (dtlsTypeAndBody b).2.length mseq 0 (dtlsTypeAndBody b).2.length ++ (dtlsTypeAndBody b).2
+
+def DtlsWire.value : DtlsWire β → DtlsMessage β
+  | .frag t len mseq off data => .handshake ⟨t, len, mseq, off, data.length, .fragment data⟩
+  | .whole b mseq => .handshake ⟨(dtlsTypeAndBody b).1, (dtlsTypeAndBody b).2.length, mseq, 0, (dtlsTypeAndBody b).2.length, b⟩
+
+theorem DtlsWire.roundtrip (m : DtlsWire β) (hw : m.WF) (r : List β) :
+    parseDtlsMessageHandshake (m.enc ++ r) = .ok r m.value := by
+  cases m with
+  | frag t len mseq off data =>
+    obtain ⟨ht, hlen, hm, ho, hf, hfrag⟩ := hw
+    have := (dtls_fragment t len mseq off data r ht hlen hm ho hf hfrag).1
+    simpa [DtlsWire.enc, DtlsWire.value, List.append_assoc] using this
+  | whole b mseq =>
+    obtain ⟨hb, hm, hlen⟩ := hw
+    have := dtls_handshake_roundtrip b hb mseq hm hlen r
+    simpa [DtlsWire.enc, DtlsWire.value, List.append_assoc] using this
+
+theorem encDtlsHsHeader_length (t len mseq off flen : Nat) :
+    (encDtlsHsHeader t len mseq off flen : List β).length = 12 := by
+  simp [encDtlsHsHeader, encBE_length]
+
+theorem DtlsWire.enc_ne_nil (m : DtlsWire β) : m.enc ≠ [] := by
+  intro h
+  have hl := congrArg List.length h
+  cases m <;> simp [DtlsWire.enc, encDtlsHsHeader_length] at hl
+
+/-- **several handshake messages in one record**: any non-empty sequence of wire messages - first, middle and last
+    fragments, zero-length fragments, whole messages of the supported kinds, in any mix and any number - decodes to exactly
+    those messages, in order, each with its 12-byte header verbatim, and the payload is consumed entirely -/
+theorem dtls_handshake_payload_roundtrip (hdr : DtlsHeader) (hct : hdr.contentType = 0x16)
+    (ms : List (DtlsWire β)) (hne : ms ≠ []) (hw : ∀ m ∈ ms, m.WF) :
+    parseDtlsRecordWithHeader hdr (ms.flatMap DtlsWire.enc) = .ok [] (ms.map DtlsWire.value) := by
+  have h16 : parseDtlsRecordWithHeader hdr = many1 (complete (parseDtlsMessageHandshake : Parser β _)) := by
+    funext i; simp [parseDtlsRecordWithHeader, hct]
+  rw [h16]
+  have hstop : ∃ n, (parseDtlsMessageHandshake : Parser β _) [] = .incomplete n := ⟨.size 1, by simp [parseDtlsMessageHandshake, beU, Res.bind]⟩
+  have key : ∀ (ws : List (DtlsWire β)), ws ≠ [] → (∀ m ∈ ws, m.WF) →
+      many1 (complete (parseDtlsMessageHandshake : Parser β _)) (ws.flatMap DtlsWire.enc ++ []) = .ok [] (ws.map DtlsWire.value) := by
+    intro ws hne' hw'
+    -- reuse the generic list lemma on the *values*, encoding each value through the wire message it came from
+    induction ws with
+    | nil => exact absurd rfl hne'
+    | cons w ws ih =>
+      by_cases hws : ws = []
+      · subst hws
+        simp only [List.flatMap_cons, List.flatMap_nil, List.append_nil, List.map_cons, List.map_nil]
+        have h1 := DtlsWire.roundtrip w (hw' w (by simp)) []
+        simp only [List.append_nil] at h1
+        unfold many1
+        simp only [complete, h1]
+        unfold many1Loop
+        obtain ⟨n, hn⟩ := hstop
+        simp [complete, hn, Res.map]
+      · have hrest := ih hws (fun m hm => hw' m (by simp [hm]))
+        simp only [List.append_nil] at hrest
+        simp only [List.flatMap_cons, List.append_nil, List.map_cons]
+        have h1 := DtlsWire.roundtrip w (hw' w (by simp)) (ws.flatMap DtlsWire.enc)
+        -- many1 on (enc w ++ rest): first message, then the loop equals many1 on rest (rest is non-empty and starts with a message)
+        have hloop : many1Loop (complete (parseDtlsMessageHandshake : Parser β _)) (ws.flatMap DtlsWire.enc) = .ok [] (ws.map DtlsWire.value) := by
+          cases ws with
+          | nil => exact absurd rfl hws
+          | cons w2 ws2 =>
+            simp only [List.flatMap_cons]
+            rw [many1Loop_cons (complete parseDtlsMessageHandshake) w2.enc _ w2.value (DtlsWire.enc_ne_nil w2)
+              (by simp [complete, DtlsWire.roundtrip w2 (hw' w2 (by simp)) _])]
+            have h2 := hrest
+            simp only [List.flatMap_cons, List.map_cons] at h2
+            unfold many1 at h2
+            simp only [complete, DtlsWire.roundtrip w2 (hw' w2 (by simp)) _] at h2
+            cases hl : many1Loop (complete parseDtlsMessageHandshake) (ws2.flatMap DtlsWire.enc) <;> simp [hl, Res.map] at h2 ⊢
+            exact h2
+        unfold many1
+        simp only [complete, h1, hloop, Res.map]
+  have := key ms hne hw
+  simpa using this
+
+/-- in particular a trailing zero-length message (a ServerHelloDone, or an empty last fragment) is not lost -/
+example : parseDtlsRecordWithHeader (β := Fin 256) ⟨22, 0xfefd, 0, 0, 24⟩
+    [14, 0, 0, 0, 0, 1, 0, 0, 0, 0, 0, 0, 14, 0, 0, 0, 0, 2, 0, 0, 0, 0, 0, 0]
+    = .ok [] [.handshake ⟨14, 0, 1, 0, 0, .serverDone []⟩, .handshake ⟨14, 0, 2, 0, 0, .serverDone []⟩] := by decide +kernel
+
 /-! ### several records in one datagram (C16 instance) -/
 
 theorem parseDtlsPlaintextRecord_ok_rem (i r : List β) (v : DtlsPlaintext β) (h : parseDtlsPlaintextRecord i = .ok r v) :
